@@ -106,9 +106,9 @@ func Props(c *Ctx) map[string]*Prop {
 		Explanation: "Decides only that every syntax error value is located: built with the caller's name and a recorded, non-zero position expression, that Lex records the position of every token it delivers, and that the lexer's error function discards a reported syntax error only when another error is already recorded (ER1). Rejection of ill-formed programs itself (language recognition) is not decidable structurally.",
 		Rules:       []Rule{ruleRD2(), ruleQB1(), ruleGT1(), ruleNL1(), ruleNL2(), ruleSIB1(), ruleBQ1(), ruleGR7(), ruleEF6(), ruleER1(), ruleHD7(), ruleLX("HD5"), ruleTK("TK1", "TK2"), ruleEF1()}})
 	add(&Prop{ID: "C18",
-		Explanation: "Decides purity, determinism and error reporting of the printer structurally: its only AST writes are the hide/undo idiom and every hide is undone by a deferred closure on all paths (PU1); nothing reachable from Fprint is a source of nondeterminism (PU2); all output goes through one buffered writer whose sticky error is returned through print, Config.Fprint and Fprint (EF5); here-document frames are balanced (PU8); the positions it consults are counted in characters (BR1, TB5) and nothing reachable from Fprint can panic (PF1). That the output is a fix-point of print∘parse is a value-level property and is not decided.",
+		Explanation: "Decides purity, determinism and error reporting of the printer structurally: its only AST writes are the hide/undo idiom and every hide is undone by a deferred closure on all paths (PU1); nothing reachable from Fprint is a source of nondeterminism (PU2); all output goes through one buffered writer whose sticky error is returned through print, Config.Fprint and Fprint (EF5); here-document frames are balanced (PU8); the positions it consults are counted in characters (BR1, TB5) and the end of a quote lies beside its last character (PS3), and nothing reachable from Fprint can panic (PF1). That the output is a fix-point of print∘parse is a value-level property and is not decided.",
 		Assumptions: []string{"bufio.Writer's sticky-error contract"},
-		Rules: []Rule{rulePR4(), rulePR1(), rulePU1(), rulePU2(), ruleEF5(), rulePU8(), rulePU8b(), ruleLV1(), ruleNG1("printer"), ruleBR1(), ruleTB5(), ruleGR1("parser"), ruleGR3(),
+		Rules: []Rule{rulePR4(), rulePS3(), rulePR1(), rulePU1(), rulePU2(), ruleEF5(), rulePU8(), rulePU8b(), ruleLV1(), ruleNG1("printer"), ruleBR1(), ruleTB5(), ruleGR1("parser"), ruleGR3(),
 			pf1Rule("no index, slice or type-assertion site reachable from Fprint can panic", 20,
 				func(c *Ctx) (map[*core.Func]bool, map[*core.Func]bool) {
 					return c.scopeOf("printer.Fprint", "printer.(*Config).Fprint"), nil
@@ -117,8 +117,8 @@ func Props(c *Ctx) map[string]*Prop {
 		Explanation: "Decides the write discipline of the variable store for every site: who may write vars/Args/Opts/Aliases (PU4), the read-only guard in Set (PU5), the exact set of Set callers and no Unset caller (PU6), no error return after an assignment in expandParam (PU7), no store into the AST by the expander and none into an ExecEnv by the parser (PU3), and agreement of the special-parameter sets (TB8). That Get/Walk behave as a map after arbitrary histories is a value-level property and is not decided.",
 		Rules:       []Rule{ruleSP4(), rulePU5b(), rulePU3(), rulePU4(), rulePU6(), rulePU9(), ruleTB8(), ruleGR1("interp"), ruleNG1("interp"), rulePP1(), rulePU10()}})
 	add(&Prop{ID: "C05",
-		Explanation: "Decides only side conditions of the print/parse round trip: every semantic AST field and every Config field is read by the printer (TB6); pending here-document frames are balanced on every path under every combination of the style bits that guard them (PU8); the operator sets of scanner and expander/printer agree (TB10); nil-encoded fields are tested against nil (TB13); the positions the printer consults to space arithmetic tokens are counted in characters and End() adds the width of the stored token (BR1, TB5), and adjacency of two tokens is decided from line and column together (PS1); nothing reachable from Fprint can panic (PF1). Whether printed text re-parses to the same tree is not decidable structurally and is not claimed.",
-		Rules: []Rule{rulePR2(), rulePR3(), rulePR4(), rulePR1(), rulePS2(), ruleTB6(), rulePU8(), rulePU8b(), ruleLV1(), ruleTB10(), ruleTB13(), rulePF3("printer"), ruleBR1(), ruleTB5(), rulePS1("printer", "parser"), ruleGR1("parser"), ruleGR3(),
+		Explanation: "Decides only side conditions of the print/parse round trip: every semantic AST field and every Config field is read by the printer (TB6); pending here-document frames are balanced on every path under every combination of the style bits that guard them (PU8); the operator sets of scanner and expander/printer agree (TB10); nil-encoded fields are tested against nil (TB13); the positions the printer consults to space arithmetic tokens are counted in characters and End() adds the width of the stored token (BR1, TB5, PS3), and adjacency of two tokens is decided from line and column together (PS1); nothing reachable from Fprint can panic (PF1). Whether printed text re-parses to the same tree is not decidable structurally and is not claimed.",
+		Rules: []Rule{rulePR2(), rulePR3(), rulePR4(), rulePS3(), rulePR1(), rulePS2(), ruleTB6(), rulePU8(), rulePU8b(), ruleLV1(), ruleTB10(), ruleTB13(), rulePF3("printer"), ruleBR1(), ruleTB5(), rulePS1("printer", "parser"), ruleGR1("parser"), ruleGR3(),
 			pf1Rule("no index, slice or type-assertion site reachable from Fprint can panic", 20,
 				func(c *Ctx) (map[*core.Func]bool, map[*core.Func]bool) {
 					return c.scopeOf("printer.Fprint", "printer.(*Config).Fprint"), nil
